@@ -198,6 +198,8 @@ def run(ck):
     else:
         parts.append(('short26', [{'key': s, 's': s} for s in all_strings(S26, 4)], True))
         parts.append(('short12x5', [{'key': s, 's': s} for s in all_strings('CNc()[]=1.l/', 5) if len(s) == 5], True))
+    # closure numbers: 0 is not a closure number of the documented language, also right after C / B / Cl / Br look-ahead positions
+    parts.append(('closure-digits', [{'key': s, 's': s} for s in all_strings('CBN0l1r', 5 if ck.quick else 6) if '0' in s], True))
     # bracket atom sublanguage
     bl = 3 if ck.quick else 4
     parts.append(('bracket', [{'key': s, 's': s} for s in bracket_bodies(bl)], True))
